@@ -128,7 +128,8 @@ static void run_solver(vf::Ctx& ctx, const Fac& fac, const std::string& tag, boo
     const SortRule sel = r.pick(fac.select_rules());
     const std::vector<long> maxits = clean ? std::vector<long>{1, 2, 5, 10, 30, 50} : std::vector<long>{1, 2, 5, 10, 50, 300};
     const long maxit = r.pick(maxits);
-    const T tol = r.pick(std::vector<T>{1e-12, 1e-10, 1e-6, 1e-3});
+    // general family, clean domain: tolerances of >= 1e4 eps only (closer to eps the Arnoldi iteration keeps restarting at rounding level: recorded finding, corpus)
+    const T tol = (clean && Fac::is_gen) ? r.pick(std::vector<T>{1e-10, 1e-8, 1e-6, 1e-3}) : r.pick(std::vector<T>{1e-12, 1e-10, 1e-6, 1e-3});
     const int sk = clean ? (int) r.range(0, 1) : (int) r.range(0, 3);
     static const char* SK[] = {"default", "gaussian", "unit-vector", "constant"};
     auto info = vf::J().kv("workload", "solver").kv("solver", FAMILY[d.family]).kv("class", d.classname).kv("n", d.n).kv("nev", d.nev).kv("ncv", d.ncv).kv("scale", d.scale)
